@@ -32,8 +32,14 @@ fn ext_raw(len: usize, fill: u8) -> Ipv6RawExtHeader {
 
 fn ip_headers(cfg: &Value) -> IpHeaders {
     let net = cfg["net"].as_str().unwrap();
+    // the supplied base header either names something stale (0) or ALREADY names the final protocol although the extension headers
+    // are not linked yet (even payload lengths): the builder has to link the chain in both cases
+    let tr = cfg["tr"].as_str().unwrap_or("");
+    let fin: u8 = if tr.starts_with("udp") { 17 } else if tr.starts_with("tcp") { 6 } else if tr.starts_with("icmp4") { 1 } else if tr.starts_with("icmp6") { 58 }
+                  else { cfg["last"].as_u64().unwrap_or(0) as u8 };
+    let base = IpNumber(if cfg["plen"].as_u64().unwrap_or(1) % 2 == 0 { fin } else { 0 });
     if net == "ip4" {
-        let mut h = Ipv4Header::new(0, TTL, IpNumber(0), SRC4, DST4).unwrap();
+        let mut h = Ipv4Header::new(0, TTL, base, SRC4, DST4).unwrap();
         h.identification = 0x7788;
         h.dont_fragment = true;
         h.dscp = IpDscp::try_new(45).unwrap();
@@ -42,7 +48,7 @@ fn ip_headers(cfg: &Value) -> IpHeaders {
         let exts = Ipv4Extensions { auth: if cfg["auth"].as_u64().unwrap() == 1 { Some(IpAuthHeader::new(IpNumber(0), 0x01020304, 0x0a0b0c0d, &[0x77; 8]).unwrap()) } else { None } };
         IpHeaders::Ipv4(h, exts)
     } else {
-        let h = Ipv6Header { traffic_class: 0x5a, flow_label: Ipv6FlowLabel::try_new(0xabcde).unwrap(), payload_length: 0, next_header: IpNumber(0), hop_limit: TTL, source: SRC6, destination: DST6 };
+        let h = Ipv6Header { traffic_class: 0x5a, flow_label: Ipv6FlowLabel::try_new(0xabcde).unwrap(), payload_length: 0, next_header: base, hop_limit: TTL, source: SRC6, destination: DST6 };
         let mut e = Ipv6Extensions::default();
         let slots: Vec<&str> = cfg["exts"].as_array().unwrap().iter().map(|x| x.as_str().unwrap()).collect();
         if slots.contains(&"hbh") {
